@@ -2,6 +2,7 @@
 import re
 from facts import callee_of
 import mirflow as MF
+import pathrules as P
 
 EXPLANATION = (
     "Frame (write-set) property decided on MIR: in every workspace function, every write through a value of type "
@@ -172,7 +173,7 @@ def r2_base_flows(c, facts):
                         from_base = bi
         elif kind == 'call':
             info = callee_of(x)
-            if info and info['def'].endswith('Builder::default_base'):
+            if P.callee_matches(info, ['Builder::default_base']):
                 from_default = bi
             else:
                 c.bad(R, 'document-from:%s' % (info['def'] if info else '?'), 'the output document is produced by %s' % (info['def'] if info else '?'))
@@ -242,7 +243,7 @@ def r4_cli_wiring(c, facts):
     site = None
     for bi, t in run.calls():
         info = callee_of(t)
-        if info and info['def'].endswith('Builder::with_base'):
+        if P.callee_matches(info, ['Builder::with_base']):
             site = (bi, t)
     if site is None:
         c.bad(R, 'with_base-not-called', 'oal-cli::run never calls Builder::with_base: a configured base is ignored')
@@ -263,7 +264,7 @@ def r4_cli_wiring(c, facts):
     sl2 = None
     for bi2, t2 in run.calls():
         info = callee_of(t2)
-        if info and info['def'].endswith('Builder::into_openapi'):
+        if P.callee_matches(info, ['Builder::into_openapi']):
             sl2 = MF.slice_back(run, t2['args'][0]['l'], idx)
     if sl2 is None:
         c.bad(R, 'into_openapi-not-called', 'run() does not call into_openapi')
